@@ -75,6 +75,11 @@ def check_tuple(acc, pendulum, kw, absolute=False):
             acc.mismatch("total_seconds", "vs-timedelta", case, d.total_seconds(), n.total_seconds())
         if not (d == n and hash(d) == hash(n)):
             acc.mismatch("eq-hash", "vs-timedelta", case, [d == n, hash(d) == hash(n)], [True, True])
+        at = d.as_timedelta()
+        acc.c["evaluations"] += 1
+        if type(at) is not dt_.timedelta or obs.td_us(at) != obs.td_us(n):
+            acc.mismatch("as_timedelta", "vs-timedelta" if abs(total) < (1 << 32) * US else "vs-timedelta/ge-2^32s", case,
+                         [type(at).__name__, obs.td_us(at)], ["timedelta", obs.td_us(n)])
     got = {"years": d.years, "months": d.months}
     if got != want:
         acc.mismatch("years-months", "as-given", case, got, want)
